@@ -451,7 +451,45 @@ def _union_pool():
     return out
 
 
-POOLS = {"data": _data_pool, "ser": _ser_pool, "union": _union_pool}
+AL1 = obj(
+    "Al1",
+    F("first_name", INT),
+    F("lastName", STR, default=V("''")),
+    F("class_", INT, alias="class", default=V("0")),
+    F("d", opt(INT), alias="$d", default=V("None")),
+)
+AL2 = obj(
+    "Al2",
+    F("some_id", INT),
+    F("kept", STR, alias="kept_as_is", no_override=True, default=V("''")),
+    F("other", INT, alias="oth_er", default=V("0")),
+    class_aliaser="upper",
+)
+AL_IN = obj("AlIn", F("in_a", INT, default=V("0")), F("in_b", STR, alias="in_bee", default=V("''")), class_aliaser="cprefix")
+AL3 = obj(
+    "Al3",
+    F("flat_in", AL_IN, flatten=True),
+    F("nested_obj", opt(AL_IN), default=V("None")),
+    F("own_field", INT, default=V("0")),
+    class_aliaser="upper",
+)
+AL4 = obj(
+    "Al4",
+    F("dep_a", INT, default=V("0")),
+    F("dep_b", INT, default=V("0"), alias="depB"),
+    body="_dr = dependent_required({'dep_a': ['dep_b']})",
+    dependent_required=(("dep_a", ("dep_b",)),),
+    class_aliaser="cprefix",
+)
+ALIAS_OBJECTS = {"Al1": (AL1, ""), "Al2": (AL2, ""), "Al3": (AL3, ""), "Al4": (AL4, ""), "list(Al2)": (lst(AL2), ""), "map(Al1)": (mp(AL1), "")}
+
+
+@functools.lru_cache()
+def _alias_pool():
+    return {n: (sp, src, "quick") for n, (sp, src) in ALIAS_OBJECTS.items()}
+
+
+POOLS = {"data": _data_pool, "ser": _ser_pool, "union": _union_pool, "alias": _alias_pool}
 
 
 def get(pool: str, pid: str) -> Tuple[Sp, str]:
